@@ -236,7 +236,7 @@ def nfa_repetition(N: NFA, id_generator: IdentifierGenerator = IdentifierGenerat
     Q = N.Q | {q0}
     F = N.F | {q0}
     delta = defaultdict(lambda: set([]))
-    delta.update(N.delta)
+    delta.update({key: set(Q1) for key, Q1 in N.delta.items()})
     for q in F:
         delta[q, N.epsilon] |= {N.q0}
     delta[q0, N.epsilon] = {N.q0}
@@ -252,8 +252,8 @@ def nfa_union(N1: NFA, N2: NFA, id_generator: IdentifierGenerator = IdentifierGe
     Q = N1.Q | N2.Q | {q0}
     F = N1.F | N2.F
     delta = defaultdict(lambda: set([]))
-    delta.update(N1.delta)
-    delta.update(N2.delta)
+    delta.update({key: set(Q1) for key, Q1 in N1.delta.items()})
+    delta.update({key: set(Q1) for key, Q1 in N2.delta.items()})
     delta[q0, N1.epsilon] = {N1.q0, N2.q0}
     return NFA(Q, Sigma, delta, q0, F, N1.epsilon)
 
@@ -265,8 +265,8 @@ def nfa_concatenation(N1: NFA, N2: NFA) -> NFA:
     Q = N1.Q | N2.Q | {q0}
     F = N2.F
     delta = defaultdict(lambda: set([]))
-    delta.update(N1.delta)
-    delta.update(N2.delta)
+    delta.update({key: set(Q1) for key, Q1 in N1.delta.items()})
+    delta.update({key: set(Q1) for key, Q1 in N2.delta.items()})
     for q in N1.F:
         delta[q, N1.epsilon] |= {N2.q0}
     return NFA(Q, Sigma, delta, q0, F, N1.epsilon)
